@@ -98,6 +98,70 @@ NameRecord(p, v, id) ==
     [] OTHER -> <<>>
 HasTypographicNames(p, v) == ~(NameRecord(p, v, 1) = NameRecord(p, v, 16) /\ NameRecord(p, v, 2) = NameRecord(p, v, 17))
 
+\* ---- further attribute -> field mappings (direct or with a simple fallback) ------------------------------------
+\* Values at scale 4 as everywhere; U = unitsPerEm (with fallback).  italicAngle = 0 in the exact domain, so the
+\* italic-dependent x offsets fall back to 0.
+Present4(p, v, a, dflt) == IF a \in p THEN OtR4(v[a]) ELSE dflt
+MoreField(p, v, f) ==
+  LET U == Val(p, v, "unitsPerEm")
+      subXS == Present4(p, v, "openTypeOS2SubscriptXSize", OtR(13 * U, 80))         \* upm * 0.65
+      subYS == Present4(p, v, "openTypeOS2SubscriptYSize", OtR(3 * U, 20))          \* upm * 0.6
+      xh == Val(p, v, "xHeight")
+  IN CASE f = "usWeightClass" -> Present4(p, v, "openTypeOS2WeightClass", 400)
+       [] f = "usWidthClass"  -> Present4(p, v, "openTypeOS2WidthClass", 5)
+       [] f = "lowestRecPPEM" -> Present4(p, v, "openTypeHeadLowestRecPPEM", 6)
+       [] f = "ySubscriptXSize" -> subXS
+       [] f = "ySubscriptYSize" -> subYS
+       [] f = "ySubscriptYOffset" -> Present4(p, v, "openTypeOS2SubscriptYOffset", OtR(3 * U, 160))     \* upm * 0.075
+       [] f = "ySubscriptXOffset" -> Present4(p, v, "openTypeOS2SubscriptXOffset", 0)
+       [] f = "ySuperscriptXSize" -> Present4(p, v, "openTypeOS2SuperscriptXSize", subXS)
+       [] f = "ySuperscriptYSize" -> Present4(p, v, "openTypeOS2SuperscriptYSize", subYS)
+       [] f = "ySuperscriptYOffset" -> Present4(p, v, "openTypeOS2SuperscriptYOffset", OtR(7 * U, 80))  \* upm * 0.35
+       [] f = "ySuperscriptXOffset" -> Present4(p, v, "openTypeOS2SuperscriptXOffset", 0)
+       [] f = "yStrikeoutSize" -> Present4(p, v, "openTypeOS2StrikeoutSize", Field(p, v, "underlineThickness"))
+       [] f = "yStrikeoutPosition" -> Present4(p, v, "openTypeOS2StrikeoutPosition",
+                                               IF xh # 0 THEN OtR(3 * xh, 20) ELSE OtR(11 * U, 200))    \* xHeight * 0.6 / upm * 0.22
+       [] f = "isFixedPitch" -> IF "postscriptIsFixedPitch" \in p /\ v["postscriptIsFixedPitch"] # 0 THEN 1 ELSE 0
+       [] f = "fontRevision1000" -> (IF "versionMajor" \in p THEN v["versionMajor"] \div 4 ELSE 0) * 1000
+                                     + (IF "versionMinor" \in p THEN v["versionMinor"] \div 4 ELSE 0)
+MoreFields == {"usWeightClass", "usWidthClass", "lowestRecPPEM", "ySubscriptXSize", "ySubscriptYSize", "ySubscriptYOffset",
+               "ySubscriptXOffset", "ySuperscriptXSize", "ySuperscriptYSize", "ySuperscriptYOffset", "ySuperscriptXOffset",
+               "yStrikeoutSize", "yStrikeoutPosition", "isFixedPitch", "fontRevision1000"}
+\* vhea exists exactly when the three vertical typo metrics are given; its caret fields fall back to 0 / 1 / 0
+VheaAttrs == {"openTypeVheaVertTypoAscender", "openTypeVheaVertTypoDescender", "openTypeVheaVertTypoLineGap"}
+HasVhea(p) == VheaAttrs \subseteq p
+VheaField(p, v, f) ==
+  CASE f = "ascent" -> OtR4(v["openTypeVheaVertTypoAscender"]) [] f = "descent" -> OtR4(v["openTypeVheaVertTypoDescender"])
+    [] f = "lineGap" -> OtR4(v["openTypeVheaVertTypoLineGap"])
+    [] f = "caretSlopeRise" -> Present4(p, v, "openTypeVheaCaretSlopeRise", 0)
+    [] f = "caretSlopeRun" -> Present4(p, v, "openTypeVheaCaretSlopeRun", 1)
+    [] f = "caretOffset" -> Present4(p, v, "openTypeVheaCaretOffset", 0)
+VheaFields == {"ascent", "descent", "lineGap", "caretSlopeRise", "caretSlopeRun", "caretOffset"}
+
+\* name records that are the attribute as given (absent attribute or empty string: no record)
+DirectNames == [n0 |-> "copyright", n7 |-> "trademark", n8 |-> "openTypeNameManufacturer", n9 |-> "openTypeNameDesigner",
+                n10 |-> "openTypeNameDescription", n11 |-> "openTypeNameManufacturerURL", n12 |-> "openTypeNameDesignerURL",
+                n13 |-> "openTypeNameLicense", n14 |-> "openTypeNameLicenseURL", n18 |-> "openTypeNameCompatibleFullName",
+                n19 |-> "openTypeNameSampleText", n21 |-> "openTypeNameWWSFamilyName", n22 |-> "openTypeNameWWSSubfamilyName"]
+DirectName(p, sv, key) == IF DirectNames[key] \in p THEN sv[DirectNames[key]] ELSE <<>>
+\* decimal digits
+RECURSIVE DecCps(_)
+DecCps(n) == IF n < 10 THEN <<48 + n>> ELSE DecCps(n \div 10) \o <<48 + (n % 10)>>
+ZFill3(n) == IF n >= 100 THEN DecCps(n) ELSE IF n >= 10 THEN <<48>> \o DecCps(n) ELSE <<48, 48>> \o DecCps(n)
+VERSION_ == <<86, 101, 114, 115, 105, 111, 110, 32>>      \* "Version "
+VersionString(p, v, sv) ==
+  IF "openTypeNameVersion" \in p THEN sv["openTypeNameVersion"]
+  ELSE VERSION_ \o DecCps(IF "versionMajor" \in p THEN v["versionMajor"] \div 4 ELSE 0) \o <<46>>
+                \o ZFill3(IF "versionMinor" \in p THEN v["versionMinor"] \div 4 ELSE 0)
+VendorID(p, sv) == IF "openTypeOS2VendorID" \in p THEN sv["openTypeOS2VendorID"] ELSE <<78, 79, 78, 69>>      \* "NONE"
+StripVersionPrefix(s) == IF Len(s) >= 8 /\ SubSeq(s, 1, 8) = VERSION_ THEN SubSeq(s, 9, Len(s)) ELSE s
+\* openTypeNameUniqueID fallback: version;vendor;postscript name (psname = the attribute as given, else the generated one)
+UniqueID(p, v, sv, psname) ==
+  IF "openTypeNameUniqueID" \in p THEN sv["openTypeNameUniqueID"]
+  ELSE StripVersionPrefix(VersionString(p, v, sv)) \o <<59>> \o VendorID(p, sv) \o <<59>> \o psname
+RECURSIVE PadTo4(_)
+PadTo4(s) == IF Len(s) >= 4 THEN s ELSE PadTo4(s \o <<32>>)
+
 \* ---- bit lists ------------------------------------------------------------------------------------
 \* A bit-list attribute names the bits that are set (a number listed twice is still one bit); the table field holds
 \* exactly those that fall inside the field.  `pb` = present bit-list attributes, `b` their values as SETS.
